@@ -203,6 +203,12 @@ fn setup<'a>(ch: &'a mut Chooser, cfg: &RunCfg) -> World<'a> {
     for i in 0..n {
         for j in 0..n {
             if i != j && w.reps[j].delegate {
+                // in the merge check, replicas that are not delegates sometimes start without the branch of a
+                // delegate (they get it with that delegate's namespace, or never)
+                if cfg.property == "C08" && !w.reps[i].delegate && w.ch.pick(2) == 0 {
+                    w.res.hit("probe.c08.replica_starts_without_a_delegate_branch");
+                    continue;
+                }
                 w.pull_refs(i, j, Some(j));
             }
         }
